@@ -103,6 +103,7 @@ class Executor {
   void exec_op(int idx, const Op& op, TaskCtx& t);
   Obj* obj(const std::string& n);
   void viol(const char* prop, const char* oracle, const std::string& detail, const std::map<std::string, std::string>& ctx = {});
+  const char* basis_prop_ = "C04";   // property under which check_basis() reports (C13 when a faulted basis file was accepted)
   bool known_skip(const char* prop, const char* oracle, const std::map<std::string, std::string>& ctx);
   void count(const std::string& k, long d = 1) { res_.counters[k] += d; }
   void observe(Obj& o, const void* p, size_t n);
